@@ -181,10 +181,12 @@ class Report:
         if level == "proof":
             ev["coverage"]["checker_cmd"] = checker_cmd or ""
             ev["coverage"]["trusted_base"] = trusted_base or []
-        if self.write_evidence:
-            os.makedirs(os.path.join(VERIF, "evidence"), exist_ok=True)
-            with open(os.path.join(VERIF, "evidence", f"{self.prop}.json"), "w") as fh:
-                json.dump(ev, fh, indent=1, default=str)
+        ev["coverage"]["program_view"] = "helper-inlined" if getattr(self.program, "inline_from", None) is not None else "plain"
+        if getattr(self.program, "inline_stats", None):
+            ev["coverage"]["helpers_inlined"] = {k: v["inlined"] for k, v in self.program.inline_stats.items()}
+        self.evidence_obj = ev
+        if self.write_evidence and not getattr(self, "defer_evidence", False):
+            self.flush_evidence()
         for r in self.rules:
             print(f"[{self.prop}] {r.id}: {len(r.instances)} instance(s), {r.discharged}/{r.obligations} obligations discharged")
         for l in lines:
@@ -195,6 +197,17 @@ class Report:
             raise AnalysisError("; ".join(shortfall))
         print(f"[{self.prop}] OK: {discharged}/{obligations} obligations over {evaluations} rule instances ({len(matched)} known finding(s))")
         return 0
+
+
+def _flush(self):
+    if getattr(self, "evidence_obj", None) is None or not self.write_evidence:
+        return
+    os.makedirs(os.path.join(VERIF, "evidence"), exist_ok=True)
+    with open(os.path.join(VERIF, "evidence", f"{self.prop}.json"), "w") as fh:
+        json.dump(self.evidence_obj, fh, indent=1, default=str)
+
+
+Report.flush_evidence = _flush
 
 
 def load_known():
